@@ -44,8 +44,10 @@ Record cfg : Type := mkCfg {
   g_xvp : bool;                 (* screen->xvpHook != NULL *)
   g_utf8 : bool;                (* screen->setXCutTextUTF8 != NULL *)
   g_ledhook : bool;             (* screen->getKeyboardLedStateHook != NULL *)
-  g_reset_extclip : bool        (* the source resets enableExtendedClipboard in SetEncodings (repair of
+  g_reset_extclip : bool;       (* the source resets enableExtendedClipboard in SetEncodings (repair of
                                    F21, notes/fix_C03_3.diff); decided from the source text on every run *)
+  g_raw_for_24bpp : bool;       (* repair of F23 (notes/fix_C03_4.diff) present in the source *)
+  g_wrap_coalesce : bool        (* repair of F5 (notes/fix_C03_5.diff) present in the source *)
 }.
 
 (* messages written immediately while the SetEncodings list is being read *)
